@@ -1,7 +1,18 @@
 (* Tie/C20.v — executable glue of the C20 correspondence check (no theorems). *)
-From Coq Require Import List QArith Qabs Bool Arith NArith.
+From Coq Require Import List QArith Qabs Bool Arith NArith ZArith Uint63.
 From FDAV Require Import Base.Num Base.Vec Base.Cmp Model.NoiseSparse.
 Import ListNotations.
+
+(* cheap exact float literals: +/- m * 2^e with m a primitive 63-bit integer (a
+   double's mantissa has 53 bits).  Unary/binary positive literals of 16 digits cost
+   ~2 ms each to elaborate; primitive integers cost nothing. *)
+Definition qof (neg : bool) (m : int) (e : Z) : Q :=
+  let z := Uint63.to_Z m in
+  let z := if neg then Z.opp z else z in
+  match e with
+  | Zneg p => Qred (Qmake z (Pos.shiftl 1 (Npos p)))
+  | _ => Qmake (Z.shiftl z e) 1
+  end.
 
 (* exact comparison of sparse curves: same missing pattern, kept values equal *)
 Definition cell_eq (a b : option Q) : bool :=
@@ -74,3 +85,24 @@ Definition tok_check_allN (two_d : bool) (a b : N) (s : sim nat nat)
 Definition tok_check_all_nofinallyN (two_d : bool) (a b : N) (s : sim nat nat)
            (obs : list (option N * (bool * sim nat nat))) : bool :=
   tok_check_all_nofinally two_d (N.to_nat a) (N.to_nat b) s (map (fun e => (optN (fst e), snd e)) obs).
+
+(* compact front end for the fault enumeration: one primitive integer per fault
+   point, km*1000 + 100*data + 10*noisy + sparse with field codes
+   0 = absent, 1 = clean data, 2 = previous noisy, 3 = previous sparse,
+   4 = new noisy (token 11), 5 = new sparse (token 31), 9 = anything else *)
+Definition dec_tok (c : Z) : option nat :=
+  match c with
+  | 0%Z => None | 1%Z => Some 1%nat | 2%Z => Some 2%nat | 3%Z => Some 3%nat
+  | 4%Z => Some 11%nat | 5%Z => Some 31%nat | _ => Some 999%nat
+  end.
+Definition dec_state (z : Z) : sim nat nat :=
+  tok_state (dec_tok ((z / 100) mod 10)%Z) (dec_tok ((z / 10) mod 10)%Z) (dec_tok (z mod 10)%Z).
+Definition dec_obs (x : int) : option nat * (bool * sim nat nat) :=
+  let z := Uint63.to_Z x in (Some (Z.to_nat (z / 1000)%Z), (true, dec_state (z mod 1000)%Z)).
+Definition tok_check_allP (defect two_d : bool) (a b : int) (s0 : int)
+           (free_raised : bool) (free_state : int) (obs : list int) : bool :=
+  let a' := Z.to_nat (Uint63.to_Z a) in
+  let b' := Z.to_nat (Uint63.to_Z b) in
+  let s := dec_state (Uint63.to_Z s0) in
+  let all := (None, (free_raised, dec_state (Uint63.to_Z free_state))) :: map dec_obs obs in
+  if defect then tok_check_all_nofinally two_d a' b' s all else tok_check_all two_d a' b' s all.
